@@ -6,6 +6,9 @@ A case is one protocol line holding an operation tree in postfix form (see lean/
     fmt <spec> <prog>     format(x, spec) as screen cells
     eq <prog> <prog>      a == b, b == a, a != b
     alias <n> <x> <b>     u = x.fixed_len(n); u += b  -> x and u (x must not change)
+    make <chunks>         CHText.make([chunks])      resize <n> <chunks>   CHText.resize_chunks_list([chunks], n)
+    hist <stmt> ; ...     a history over several objects o0, o1, ...: every object is dumped (and re-rendered)
+                          after every statement
     pyslice / pyidx       Python's own s[i:j] / s[i]  (ties the specification functions to CPython)
 
 Trees (python side): ("s", text) ("c", col, text) ("ls"|"tp", [items]) ("mk", [args]) ("add", a, b)
@@ -48,6 +51,14 @@ THEOREMS = [
     "C08.reachable_canon",
     "C08.eq_parts",
     "C08.eval_observe",
+    "C08.str_shows",
+    "C08.palette_exists",
+    "C08.format_str_strip",
+    "C08.make_spec",
+    "C08.resize_spec",
+    "C08.hist_step",
+    "C08.hist_run",
+    "C08.hist_self_twice",
 ]
 
 # steps allowed to one `x += x` before it is reported as non-terminating (pre-fix trees loop forever)
@@ -103,12 +114,12 @@ def translate(repo):
     if len(cmp_align) != 2:
         raise ValueError("expected two comparisons align_char == <char> (left, right), found %r" % (cmp_align,))
     pads = []
-    for cls, meth in (("CHText", "fixed_len"), ("_CHTextChunk", "fixed_len")):
-        for n in ast.walk(_method(classes[cls], meth)):
-            if isinstance(n, ast.BinOp) and isinstance(n.op, ast.Mult) and _is_char(n.left):
-                pads.append(n.left.value)
-    if len(pads) != 2:
-        raise ValueError("expected one '<char> * n' padding in each fixed_len, found %r" % (pads,))
+    for cls, meth in (("CHText", "fixed_len"), ("_CHTextChunk", "fixed_len"), ("CHText", "resize_chunks_list")):
+        found = [n.left.value for n in ast.walk(_method(classes[cls], meth))
+                 if isinstance(n, ast.BinOp) and isinstance(n.op, ast.Mult) and _is_char(n.left)]
+        if not found:
+            raise ValueError("no '<char> * n' padding in %s.%s" % (cls, meth))
+        pads += found
     consts = {
         "alignChars": None,
         "defaultAlign": _one(default_align, "default align"),
@@ -302,6 +313,12 @@ def parse_line(line):
     f = line.split()
     if f[0] == "fmt":
         return "fmt", parse_postfix(f[2:]), dec_str(f[1])
+    if f[0] == "hist":
+        return "hist", [], None
+    if f[0] == "make":
+        return "make", [("c", int(t.split(":")[1]), dec_str(t.split(":")[2])) for t in f[1:]], None
+    if f[0] == "resize":
+        return "resize", [("c", int(t.split(":")[1]), dec_str(t.split(":")[2])) for t in f[2:]], int(f[1])
     if f[0] == "alias":
         return "alias", parse_postfix(f[2:]), int(f[1])
     if f[0] in ("val", "eq"):
@@ -424,6 +441,15 @@ def impl(case):
                 u = x.fixed_len(spec)
                 u += b
                 out.append(show_real(x) + " | " + show_real(u))
+            elif kind == "hist":
+                out.append(impl_hist(line))
+            elif kind == "make":
+                out.append(show_real(_color().CHText.make([_make_chunk(c, t) for _, c, t in trees])))
+            elif kind == "resize":
+                CH = _color().CHText
+                r = CH.resize_chunks_list([_make_chunk(c, t) for _, c, t in trees], spec)
+                chunks = "/".join("%s:%s" % (_col_id(c.c_prefix, c.c_suffix), enc_str(c.text)) for c in r) or "-"
+                out.append("ok CS %s L %d" % (chunks, CH.calc_chunks_len(r)))
             elif kind == "pyslice":
                 out.append("S " + enc_str(dec_str(trees[0])[_pi(trees[1]):_pi(trees[2])]))
             elif kind == "pyidx":
@@ -552,6 +578,222 @@ def ev_ref(t):
     return ref_step(t, [ev_ref(x) for x in kids_of(t)])
 
 
+# ------------------------------------------------------------------ histories
+# statements: ("new", [parts]) ("iadd", id, part) ("add", id, part) ("radd", id, part) ("join", id, [parts])
+#             ("sl", id, i, j) ("idx", id, i) ("fl", id, n);  parts: ("s", text) ("c", col, text) ("o", id)
+#             ("ls"|"tp", [parts])
+def _part_toks(p):
+    k = p[0]
+    if k == "s":
+        return ["s:" + enc_str(p[1])]
+    if k == "c":
+        return ["c:%d:%s" % (p[1], enc_str(p[2]))]
+    if k == "o":
+        return ["o:%d" % p[1]]
+    return [x for it in p[1] for x in _part_toks(it)] + ["%s:%d" % (k, len(p[1]))]
+
+
+def _stmt_toks(st):
+    k = st[0]
+    if k == "new":
+        return ["new"] + [x for p in st[1] for x in _part_toks(p)]
+    if k in ("iadd", "add", "radd"):
+        return ["%s:%d" % (k, st[1])] + _part_toks(st[2])
+    if k == "join":
+        return ["join:%d" % st[1]] + [x for p in st[2] for x in _part_toks(p)]
+    if k == "sl":
+        return ["sl:%d:%s:%s" % (st[1], _oi(st[2]), _oi(st[3]))]
+    if k == "idx":
+        return ["idx:%d:%d" % (st[1], st[2])]
+    if k == "fl":
+        return ["fl:%d:%d" % (st[1], st[2])]
+    raise ValueError(k)
+
+
+def hist_line(stmts):
+    return "hist " + " ; ".join(" ".join(_stmt_toks(st)) for st in stmts)
+
+
+def _parse_parts(toks):
+    st = []
+    for tok in toks:
+        f = tok.split(":")
+        if f[0] == "s":
+            st.append(("s", dec_str(f[1])))
+        elif f[0] == "c":
+            st.append(("c", int(f[1]), dec_str(f[2])))
+        elif f[0] == "o":
+            st.append(("o", int(f[1])))
+        elif f[0] in ("ls", "tp"):
+            n = int(f[1])
+            items = st[len(st) - n:]
+            del st[len(st) - n:]
+            st.append((f[0], items))
+        else:
+            raise ValueError(tok)
+    return st
+
+
+def parse_hist(line):
+    out = []
+    for chunk in line[len("hist "):].split(" ; "):
+        toks = chunk.split()
+        f = toks[0].split(":")
+        parts = _parse_parts(toks[1:])
+        k = f[0]
+        if k == "new":
+            out.append(("new", parts))
+        elif k in ("iadd", "add", "radd"):
+            out.append((k, int(f[1]), parts[0]))
+        elif k == "join":
+            out.append(("join", int(f[1]), parts))
+        elif k == "sl":
+            out.append(("sl", int(f[1]), _pi(f[2]), _pi(f[3])))
+        elif k == "idx":
+            out.append(("idx", int(f[1]), int(f[2])))
+        elif k == "fl":
+            out.append(("fl", int(f[1]), int(f[2])))
+        else:
+            raise ValueError(chunk)
+    return out
+
+
+def _real_part(objs, p):
+    k = p[0]
+    if k == "s":
+        return p[1]
+    if k == "c":
+        return _make_chunk(p[1], p[2])
+    if k == "o":
+        return objs[p[1]]
+    items = [_real_part(objs, x) for x in p[1]]
+    return items if k == "ls" else tuple(items)
+
+
+def _mentions(p, tgt):
+    if p[0] == "o":
+        return 1 if p[1] == tgt else 0
+    if p[0] in ("ls", "tp"):
+        return sum(_mentions(x, tgt) for x in p[1])
+    return 0
+
+
+def real_stmt(objs, st):
+    """executes one statement on the list of real objects (appends the new object)"""
+    col = _color()
+    k = st[0]
+    if k == "new":
+        objs.append(col.CHText(*[_real_part(objs, p) for p in st[1]]))
+    elif k == "iadd":
+        x, b = objs[st[1]], _real_part(objs, st[2])
+
+        def go():
+            y = x
+            y += b
+            return y
+        y = _with_budget(go) if _mentions(st[2], st[1]) else go()
+        if y is not x:
+            raise AssertionError("+= returned another object")
+    elif k == "add":
+        objs.append(objs[st[1]] + _real_part(objs, st[2]))
+    elif k == "radd":
+        objs.append(_real_part(objs, st[2]) + objs[st[1]])
+    elif k == "join":
+        items = [_real_part(objs, p) for p in st[2]]
+        objs.append(objs[st[1]].join(items))
+    elif k == "sl":
+        objs.append(objs[st[1]][st[2]:st[3]])
+    elif k == "idx":
+        objs.append(objs[st[1]][st[2]])
+    elif k == "fl":
+        objs.append(objs[st[1]].fixed_len(st[2]))
+    else:
+        raise ValueError(k)
+
+
+def impl_hist(line):
+    objs, out = [], []
+    for st in parse_hist(line):
+        try:
+            real_stmt(objs, st)
+            out.append(" ; ".join(show_real(o) for o in objs) if objs else "-")
+        except Exception as e:
+            out.append(_err(e))
+    return " || ".join(out)
+
+
+def _ref_flat(refs, p):
+    k = p[0]
+    if k == "s":
+        return p[1], [0] * len(p[1])
+    if k == "c":
+        return p[2], [p[1]] * len(p[2])
+    if k == "o":
+        return refs[p[1]].plain, list(refs[p[1]].cols)
+    pl, cl = "", []
+    for x in p[1]:
+        a, b = _ref_flat(refs, x)
+        pl, cl = pl + a, cl + b
+    return pl, cl
+
+
+def _self_form_ok(p, tgt):
+    """operand of `o_tgt += p` for which value semantics is unambiguous: no mention of the target, or the
+    target alone (`t += t`, `t += [t]`, `t += ([t],)`)"""
+    if _mentions(p, tgt) == 0:
+        return True
+    while p[0] in ("ls", "tp") and len(p[1]) == 1:
+        p = p[1][0]
+    return p == ("o", tgt)
+
+
+def ref_stmt(refs, st):
+    """the same statement on plain str / colour lists; raises IndexError as str does, OutOfModel when the
+    statement has no unambiguous str reading"""
+    k = st[0]
+    if k == "new":
+        pl, cl = _ref_flat(refs, ("ls", st[1]))
+        refs.append(Ref("t", pl, cl))
+    elif k == "iadd":
+        if not _self_form_ok(st[2], st[1]):
+            raise OutOfModel()
+        pl, cl = _ref_flat(refs, st[2])
+        r = refs[st[1]]
+        refs[st[1]] = Ref("t", r.plain + pl, r.cols + cl)
+    elif k == "add":
+        pl, cl = _ref_flat(refs, st[2])
+        r = refs[st[1]]
+        refs.append(Ref("t", r.plain + pl, r.cols + cl))
+    elif k == "radd":
+        if st[2][0] not in ("s", "ls", "tp"):
+            raise OutOfModel()
+        pl, cl = _ref_flat(refs, st[2])
+        r = refs[st[1]]
+        refs.append(Ref("t", pl + r.plain, cl + r.cols))
+    elif k == "join":
+        sep = refs[st[1]]
+        fl = [_ref_flat(refs, p) for p in st[2]]
+        cols = []
+        for n, (_, c) in enumerate(fl):
+            if n:
+                cols = cols + sep.cols
+            cols = cols + c
+        refs.append(Ref("t", sep.plain.join([p for p, _ in fl]), cols))
+    elif k == "sl":
+        r = refs[st[1]]
+        refs.append(Ref("t", r.plain[st[2]:st[3]], r.cols[st[2]:st[3]]))
+    elif k == "idx":
+        r = refs[st[1]]
+        refs.append(Ref("t", r.plain[st[2]], [r.cols[st[2]]]))
+    elif k == "fl":
+        r, n = refs[st[1]], st[2]
+        if n < 0:
+            raise OutOfModel()
+        refs.append(Ref("t", r.plain[:n].ljust(n), r.cols[:n] + [0] * (n - len(r.cols))))
+    else:
+        raise ValueError(k)
+
+
 # ------------------------------------------------------------------ oracle: the property itself
 class Violation(Exception):
     pass
@@ -617,7 +859,7 @@ def _charwise_text(ref):
     return x
 
 
-def _check_value(obj, ref, where):
+def _check_value(obj, ref, where, eq=True):
     """the observable claims of the statement for one resulting object"""
     col = _color()
     if ref.kind in ("ls", "tp", "s"):
@@ -635,6 +877,8 @@ def _check_value(obj, ref, where):
         raise Violation("type: %s gives %s" % (where, type(obj).__name__))
     if obj.plain_text() != ref.plain:
         raise Violation("text: %s shows %r, the same operations on str give %r" % (where, obj.plain_text(), ref.plain))
+    if bool(obj) != bool(ref.plain):
+        raise Violation("bool: %s is %s, the str is %s" % (where, bool(obj), bool(ref.plain)))
     if len(obj) != len(ref.plain):
         raise Violation("len: %s has len %d but shows %d characters" % (where, len(obj), len(ref.plain)))
     if got != want:
@@ -642,7 +886,7 @@ def _check_value(obj, ref, where):
     shown = _cells_of_str(str(obj))
     if shown != want:
         raise Violation("str: %s: str() shows %r, expected %r" % (where, shown, want))
-    if isinstance(obj, col.CHText):
+    if isinstance(obj, col.CHText) and eq:
         for name, other in (("chunk by chunk", _canon_text(ref)), ("character by character", _charwise_text(ref))):
             if not (obj == other) or not (other == obj) or (obj != other):
                 raise Violation("equal: %s is not equal to the same characters and colors assembled %s" % (where, name))
@@ -692,10 +936,87 @@ def _in_format_domain(spec):
     return rest == "" or (rest.isascii() and rest.isdigit() and rest[0] != "0")
 
 
+def _check_format(obj, ref, spec, where):
+    want = format(ref.plain, spec)
+    cells = _cells_of_str(format(obj, spec))
+    if cells is None or "".join(c for c, _ in cells) != want:
+        raise Violation("format: %s: format(text, %r) shows %r, format(%r, %r) is %r" % (
+            where, spec, None if cells is None else "".join(c for c, _ in cells), ref.plain, spec, want))
+    if sorted(k for _, k in cells if k != "0") != sorted(str(c) for c in ref.cols if c != 0) and \
+            not any(ch == "*" for ch in ref.plain):
+        raise Violation("format-color: %s: format(text, %r) shows other colors than the text" % (where, spec))
+
+
+def oracle_hist(line, rep):
+    """every object, after every statement, shows what the same statements give on plain str; rendering
+    (str, format, plain_text, len) is repeated after every statement"""
+    objs, refs = [], []
+    for n, st in enumerate(parse_hist(line)):
+        where0 = "statement %d (%s)" % (n, " ".join(_stmt_toks(st)))
+        rerr = None
+        before = list(refs)
+        try:
+            ref_stmt(refs, st)
+        except OutOfModel:
+            return None                     # no unambiguous str reading from here on
+        except IndexError as e:
+            rerr = e
+        try:
+            real_stmt(objs, st)
+        except IndexError:
+            if rerr is None:
+                return "index: %s raises IndexError, the same operation on str does not" % where0
+            refs[:] = before
+            continue
+        except _Budget:
+            return "hang: %s does not terminate" % where0
+        except Exception as e:
+            return "raises: %s raises %s" % (where0, type(e).__name__)
+        if rerr is not None:
+            return "index: %s gives a result, the same operation on str raises IndexError" % where0
+        if len(objs) != len(refs):
+            return "history: %s: %d objects, expected %d" % (where0, len(objs), len(refs))
+        try:
+            for i, (o, r) in enumerate(zip(objs, refs)):
+                w = "o%d after %s" % (i, where0)
+                _check_value(o, r, w)
+                _check_format(o, r, "*^%d" % (len(r.plain) + 3), w)
+        except Violation as v:
+            return "hist-" + str(v)
+    return None
+
+
 def oracle(case, replies):
     col = _color()
     for line, rep in zip(case["lines"], replies):
         kind, trees, spec = parse_line(line)
+        if kind == "hist":
+            msg = oracle_hist(line, rep)
+            if msg is not None:
+                return msg
+            continue
+        if kind in ("make", "resize"):
+            chunks = [_make_chunk(c, t) for _, c, t in trees]
+            plain = "".join(t for _, _, t in trees)
+            cols = [c for _, c, t in trees for _ in t]
+            try:
+                if kind == "make":
+                    # internal constructor: text, len and colours are judged; equality only without empty chunks
+                    obj = col.CHText.make(chunks)
+                    _check_value(obj, Ref("t", plain, cols), "make", eq=all(t for _, _, t in trees))
+                elif spec >= 0:
+                    r = col.CHText.resize_chunks_list(chunks, spec)
+                    got = [(ch, _col_id(c.c_prefix, c.c_suffix)) for c in r for ch in c.text]
+                    want = list(zip(plain[:spec].ljust(spec), [str(c) for c in cols[:spec] + [0] * (spec - len(cols))]))
+                    if got != want:
+                        return "resize: resize_chunks_list(%r, %d) shows %r, expected %r" % (plain, spec, got, want)
+                    if col.CHText.calc_chunks_len(r) != spec:
+                        return "resize-len: calc_chunks_len of the result is not %d" % spec
+            except Violation as v:
+                return "make-" + str(v)
+            except Exception as e:
+                return "raises: %s raises %s" % (kind, type(e).__name__)
+            continue
         if kind not in ("val", "fmt", "eq", "alias"):
             continue
         try:
@@ -1055,6 +1376,30 @@ def gen_cases(rng, tier):
     # 5. thorough: every split of a short text into coloured chunks, every assembly, all bounds
     if not quick:
         yield from search_cases(rng, tier)
+    # 5b. histories over several objects: every object is observed and re-rendered after every statement
+    for _ in range(3000 if quick else 60000):
+        stmts = gen_history(rng, rng.randint(3, 7 if quick else 10), rng.choice([2, 3, 4]))
+        yield _case(hist_line(stmts), "history")
+    # ... and `+=` operands that mention the target more than once or after other elements (four copies for
+    # `t += [t, t]`): model = code only, the oracle stops judging there
+    for base in BASES[1:]:
+        new = ("new", [("c", c, t) for t, c in base])
+        for p in (("ls", [("o", 0), ("o", 0)]), ("tp", [("s", "q"), ("o", 0)]), ("ls", [("o", 0), ("ls", [("o", 0), ("c", 1, "z")])]),
+                  ("ls", [("ls", [("o", 0)]), ("o", 0), ("o", 0)])):
+            yield _case(hist_line([new, ("iadd", 0, p), ("add", 0, ("o", 0)), ("iadd", 1, ("o", 0))]), "history-selflist")
+    # 5c. the chunk-list helpers of the table printer
+    for _ in range(800 if quick else 16000):
+        k = rng.randint(0, 4)
+        ncol = rng.choice([1, 2, 3])
+        chunks = [("c", rng.randrange(ncol), _rtext(rng, 0, 3)) for _ in range(k)]
+        toks = " ".join("c:%d:%s" % (c, enc_str(t)) for _, c, t in chunks)
+        n = sum(len(t) for _, _, t in chunks)
+        yield _case(("make " + toks).strip(), "make")
+        yield _case(("resize %d %s" % (rng.choice([n, 0, n + 1, max(0, n - 1), rng.randint(0, n + 3), -1]), toks)).strip(), "resize")
+    for base in BASES:
+        toks = " ".join("c:%d:%s" % (c, enc_str(t)) for t, c in base)
+        for m in range(-1, sum(len(t) for t, _ in base) + 3):
+            yield _case(("resize %d %s" % (m, toks)).strip(), "resize")
     # 6. operands that are the same object: `t += t`, `t += [t]`, and `u = x.fixed_len(n); u += b` (x must stay)
     for base in BASES:
         bt = _base_tree(base)
@@ -1079,6 +1424,67 @@ def gen_cases(rng, tier):
                     "alias-fixedlen")
 
 
+def _hist_part(rng, refs, ncol, depth=0, avoid=None):
+    r = rng.random()
+    if refs and r < 0.35:
+        ids = [i for i in range(len(refs)) if i != avoid]
+        if ids:
+            return ("o", rng.choice(ids))
+    if r < 0.45 and depth < 2:
+        return (rng.choice(["ls", "tp"]), [_hist_part(rng, refs, ncol, depth + 1, avoid) for _ in range(rng.randint(0, 3))])
+    if rng.random() < 0.35:
+        return ("s", _rtext(rng))
+    return ("c", rng.randrange(ncol), _rtext(rng))
+
+
+def gen_history(rng, nstmt, ncol):
+    """a random history; the reference state is tracked so that `+=` can aim at the merge path (same colour as
+    the last character of the target), at re-rendering after a mutation, and at valid bounds"""
+    stmts, refs = [], []
+
+    def push(st):
+        try:
+            ref_stmt(refs, st)
+        except IndexError:
+            pass
+        except OutOfModel:
+            return False
+        stmts.append(st)
+        return True
+    push(("new", [_hist_part(rng, refs, ncol) for _ in range(rng.randint(0, 3))]))
+    while len(stmts) < nstmt:
+        a = rng.randrange(len(refs))
+        n = len(refs[a].plain)
+        op = rng.choice(["iadd", "iadd", "iadd", "iadd", "add", "radd", "join", "sl", "idx", "fl", "new"])
+        if op == "iadd":
+            r = rng.random()
+            if r < 0.35 and n:                       # merge into the last chunk of the target
+                c = refs[a].cols[-1]
+                p = ("s", _rtext(rng, 1, 3)) if c == 0 and rng.random() < 0.5 else ("c", c, _rtext(rng, 1, 3))
+            elif r < 0.5:                            # the target itself
+                p = rng.choice([("o", a), ("ls", [("o", a)]), ("tp", [("o", a)])])
+            else:
+                p = _hist_part(rng, refs, ncol, avoid=a)
+            push(("iadd", a, p))
+        elif op == "add":
+            push(("add", a, _hist_part(rng, refs, ncol)))
+        elif op == "radd":
+            p = rng.choice([("s", _rtext(rng)), ("ls", [_hist_part(rng, refs, ncol, 1)]), ("tp", [])])
+            push(("radd", a, p))
+        elif op == "join":
+            push(("join", a, [_hist_part(rng, refs, ncol, 1) for _ in range(rng.randint(0, 3))]))
+        elif op == "sl":
+            g = _Gen(rng, 0, 1)
+            push(("sl", a, g.bound(n), g.bound(n)))
+        elif op == "idx":
+            push(("idx", a, rng.randint(-n - 1, n)))
+        elif op == "fl":
+            push(("fl", a, rng.choice([n, n, n + 1, max(0, n - 1), rng.randint(0, n + 2)])))
+        else:
+            push(("new", [_hist_part(rng, refs, ncol) for _ in range(rng.randint(0, 3))]))
+    return stmts
+
+
 def corpus():
     """minimised witnesses of the mutation experiments (each distinguishes a realistic defect)"""
     lines = [
@@ -1101,6 +1507,9 @@ def corpus():
         "val c:1:98 c:0:99 mk:2 dupiaddl",    # ... nor t += [t]
         "alias 0 mk:0 s:113",                 # fixed ec75272: fixed_len returned the text itself, u += 'q' changed x
         "alias 2 c:1:97,98 mk:1 c:1:113",     # the same with a merge into the last chunk
+        # seed C09-m4: a cached str() that is not dropped when += merges into the last chunk
+        "hist new c:1:97 ; iadd:0 c:1:98 ; iadd:0 s:99 ; iadd:0 s:100",
+        "hist new c:1:97 s:98 ; add:0 c:2:99 ; iadd:0 s:100 ; iadd:1 c:2:101 ; sl:0:1:n ; iadd:0 o:0",
     ]
     return [{"lines": [l], "meta": {"kind": "corpus"}} for l in lines]
 
@@ -1169,13 +1578,52 @@ def _shrink_tree(t):
             yield with_kids(t, ks[:i] + [y] + ks[i + 1:])
 
 
+def _shrink_hist(case):
+    meta = case.get("meta", {})
+    stmts = parse_hist(case["lines"][0])
+    if len(stmts) > 1:
+        yield {"lines": [hist_line(stmts[:-1])], "meta": meta}
+    for i, st in enumerate(stmts):
+        if st[0] == "iadd":                  # does not allocate: object ids stay valid
+            yield {"lines": [hist_line(stmts[:i] + stmts[i + 1:])], "meta": meta}
+
+    def smaller(p):
+        if p[0] == "s" and p[1]:
+            yield ("s", p[1][1:])
+        if p[0] == "c" and p[2]:
+            yield ("c", p[1], p[2][1:])
+        if p[0] in ("ls", "tp"):
+            for j in range(len(p[1])):
+                yield (p[0], p[1][:j] + p[1][j + 1:])
+                for y in smaller(p[1][j]):
+                    yield (p[0], p[1][:j] + [y] + p[1][j + 1:])
+    for i, st in enumerate(stmts):
+        if st[0] in ("new", "join"):
+            parts = st[-1]
+            for j in range(len(parts)):
+                for cand in [parts[:j] + parts[j + 1:]] + [parts[:j] + [y] + parts[j + 1:] for y in smaller(parts[j])]:
+                    yield {"lines": [hist_line(stmts[:i] + [st[:-1] + (cand,)] + stmts[i + 1:])], "meta": meta}
+        elif st[0] in ("iadd", "add", "radd"):
+            for y in smaller(st[2]):
+                yield {"lines": [hist_line(stmts[:i] + [(st[0], st[1], y)] + stmts[i + 1:])], "meta": meta}
+
+
 def shrink(case):
     line = case["lines"][0]
+    if line.startswith("hist "):
+        yield from _shrink_hist(case)
+        return
     try:
         kind, trees, spec = parse_line(line)
     except Exception:
         return
     meta = case.get("meta", {})
+    if kind in ("make", "resize"):
+        head = line.split()[:1 if kind == "make" else 2]
+        toks = line.split()[len(head):]
+        for i in range(len(toks)):
+            yield {"lines": [" ".join(head + toks[:i] + toks[i + 1:])], "meta": meta}
+        return
     if kind not in ("val", "fmt", "eq", "alias"):
         return
     for i, t in enumerate(trees):
@@ -1194,24 +1642,41 @@ def shrink(case):
 
 
 # ------------------------------------------------------------------ evidence
-RULE = ("one case = one operation tree (postfix line). Streams: exhaustive slices/indexes/fixed_len/format widths on 7 base "
-        "texts of 0-4 chunks and on single chunks; random trees of depth <= 4 (thorough 6) over 2-6 colours and texts of "
-        "0-4 characters from 'abc xyz s05<é中' (constructor, +, +=, reflected + with str/list/tuple, join, [i], [i:j], "
-        "fixed_len, list(x), x += x, x += [x], nested lists/tuples, empty operands), observed as value / format(spec) / == against a re-assembly of the "
-        "same cells, a near miss, a str, a chunk; IndexError trees; `u = x.fixed_len(n); u += b` observed on x and u; Python's own slicing; out-of-domain stream (negative "
-        "fixed_len, malformed specs: model = code only). non-trivial = at least two operations and two distinct colours "
-        "in the tree (py-slice: text of >= 2 characters); distinct by protocol line")
+RULE = ("one case = one protocol line. Streams: (1) exhaustive slices/indexes/fixed_len/format widths on 7 base texts of 0-4 "
+        "chunks and on single chunks; (2) random operation trees of depth <= 4 (thorough 6) over 2-6 colours and texts of 0-4 "
+        "(10%: 0-9) characters from 'abc xyz s05<é中' (constructor, +, +=, reflected + with str/list/tuple, join, [i], [i:j], "
+        "fixed_len, list(x), x += x, x += [x], nested lists/tuples, empty operands), observed as value / format(spec) / == "
+        "against a re-assembly of the same cells, a near miss, a str, a chunk; IndexError trees; (3) `u = x.fixed_len(n); "
+        "u += b` observed on x and u; (4) histories of 3-7 (thorough 10) statements over several objects (new, +=, +, "
+        "reflected +, join, [i:j], [i], fixed_len with operands that mention any object, also the target; += aimed at the "
+        "merge path), every object dumped and re-rendered (len, chunks, plain_text, str, format) after every statement; "
+        "(5) CHText.make / resize_chunks_list on random chunk lists incl. empty chunks; (6) Python's own slicing; (7) "
+        "out-of-domain stream (negative fixed_len, malformed specs, `t += [t, t]`-like operands: model = code only). "
+        "non-trivial = at least two operations and two distinct colours in the tree; a history with a += after at least "
+        "two earlier statements; make/resize with >= 2 chunks; py-slice of >= 2 characters. Distinct by protocol line; the "
+        "`types:` / `spec:` / `hist-op:` tags give the distribution over operand types of every dispatching operation")
 TRUSTED = ["CPython str/list slicing, str.join, str.ljust, format(str, spec) (the reference side of the oracle)",
-           "harness-side reading of str(text) into (character, colour) cells by the palette's own prefixes"]
+           "harness-side reading of str(text) into (character, colour) cells by the palette's own prefixes (the Lean side of "
+           "the same step is C08.str_shows on top of C09's terminal model)",
+           "lean/AkVerif/Lemmas/Sgr.lean, SgrText.lean (C09) are imported for str_shows / format_str_strip / palette_exists"]
 ASSUMPTIONS = ["colour id = (c_prefix, c_suffix) of a ColorFmt-produced chunk; the suffix is a function of the prefix",
-               "an operand that is the target itself occurs only as `t += t` / `t += [t]` (value semantics defines them); a list "
-               "mentioning the target twice (`t += [t, t]` gives four copies) is not generated",
-               "characters of texts and fills are not ESC"]
+               "a `+=` operand that mentions its target more than once or after other elements (`t += [t, t]` gives four "
+               "copies, `t += [x, t]` gives t x t x) has no unambiguous str reading: generated, compared with the model "
+               "(C08.hist_self_twice), not judged by the oracle",
+               "characters of texts and fills are not ESC",
+               "outside the property (not generated): `x in text` (falls back to iteration: substrings are never found), "
+               "hash() of chunks, slice steps (CHText raises ValueError), format specs with zero flag / precision / sign, "
+               "CHText.make keeping the caller's list object"]
 
 
 def nontrivial(case, replies):
     line = case["lines"][0]
     kind, trees, _ = parse_line(line)
+    if kind == "hist":
+        stmts = parse_hist(line)
+        return any(st[0] == "iadd" for st in stmts[2:]) and len(stmts) >= 3
+    if kind in ("make", "resize"):
+        return len(trees) >= 2
     if kind == "pyslice":
         return len(dec_str(trees[0])) >= 2
     if kind == "pyidx":
@@ -1236,7 +1701,46 @@ def tags(case, replies):
     yield "reply:" + (" ".join(r[:2]) if r[0] == "err" else r[0])
     line = case["lines"][0]
     kind, trees, _ = parse_line(line)
+    if kind in ("make", "resize"):
+        yield "chunks-in:%d" % len(trees)
+        if any(not t for _, _, t in trees):
+            yield kind + "-with-empty-chunk"
+        return
+    if kind == "hist":
+        stmts = parse_hist(line)
+        yield "hist-len:%d" % len(stmts)
+        for op in sorted(set(st[0] for st in stmts)):
+            yield "hist-op:" + op
+        if any(st[0] == "iadd" and _mentions(st[2], st[1]) for st in stmts):
+            yield "hist-self-operand"
+        if "err" in replies[0]:
+            yield "hist-with-error"
+        return
     if kind in ("val", "fmt", "eq", "alias"):
+        # operand types of every dispatching operation, shape of the format spec
+        seen = set()
+        try:
+            for t in trees:
+                for x in _nodes(t):
+                    if x[0] in ("add", "iadd"):
+                        seen.add("%s:%s+%s" % (x[0], ev_ref(x[1]).kind, ev_ref(x[2]).kind))
+                    elif x[0] in ("idx", "sl", "fl", "it", "dupiadd", "dupiaddl"):
+                        seen.add("%s:%s" % (x[0], ev_ref(x[1]).kind))
+                    elif x[0] == "join":
+                        seen.add("join:%s" % ev_ref(x[2]).kind)
+            if kind == "eq":
+                seen.add("eq:%s==%s" % tuple(ev_ref(t).kind for t in trees))
+        except (IndexError, OutOfModel):
+            pass
+        for x in sorted(seen):
+            yield "types:" + x
+        if kind == "fmt":
+            spec = parse_line(line)[2]
+            body = spec[:-1] if spec.endswith("s") else spec
+            shape = ("fill+" if len(body) >= 2 and body[1] in "<>^" else "") + \
+                ("align+" if any(c in "<>^" for c in body[:2]) else "") + \
+                ("width" if body[-1:].isdigit() else "") + ("+s" if spec.endswith("s") else "")
+            yield "spec:" + (shape.strip("+") or "empty") if _in_format_domain(spec) else "spec:out-of-domain"
         yield "depth:%d" % max(_depth(t) for t in trees)
         for op in sorted(set(x[0] for t in trees for x in _nodes(t))):
             yield "op:" + op
@@ -1258,16 +1762,29 @@ LEVEL_TEXT = ("Kernel-checked for all inputs on the Lean model of CHText / CHTex
               "chunk, chunk == chunk/str outside the both-empty exception, with Python's reflected dispatch (C08.eq_parts); "
               "(4) C08.eval_refines: every typed operation tree of any depth over these operations evaluates in the model to a "
               "value whose texts satisfy the invariant and whose cells are exactly what the same operations give on plain "
-              "sequences, or both raise IndexError. The characters of __format__/fixed_len (align set, defaults, type char, pad) are "
-              "regenerated from ak/color.py on every run. Model = code is established by the differential run (exact chunk lists, "
-              "len(), plain_text(), str() read back into cells, format output cells, ==, != in both directions), not proved.")
+              "sequences, or both raise IndexError; (5) histories over a store of objects (C08.hist_step, hist_run): every statement "
+              "does to what all objects show what it does to a store of plain sequences, keeps every object canonical and writes "
+              "exactly one object (+= its target, anything else a new object: no operation returns or changes an operand); "
+              "`t += t`, `t += [t]` double the text, `t += [t, t]` gives four copies (hist_self_twice); nothing observed depends on "
+              "an earlier state (no cache in the model; the tie re-renders every object after every statement); (6) str() and "
+              "format() as strings, composed with C09's terminal and strip model (str_shows, format_str_strip, palette_exists): a "
+              "terminal shows exactly the cells with the attributes of each character's formatter and ends in default state, "
+              "strip_colors(str(x)) = plain_text, strip_colors(format(x, spec)) = format(plain_text, spec); (7) the internal "
+              "helpers CHText.make (= the public constructor when no chunk is empty; keeps empty chunks otherwise) and "
+              "resize_chunks_list (first n cells padded, exactly n characters, AssertionError for n < 0) (make_spec, resize_spec). "
+              "The characters of __format__/fixed_len/resize (align set, defaults, type char, pad) are regenerated from "
+              "ak/color.py on every run. Model = code is established by the differential run (exact chunk lists, len(), "
+              "plain_text(), str() read back into cells, format output cells, ==, != in both directions, whole stores after every "
+              "statement of a history), not proved.")
 LEVEL_NOTE = ("Trusted: Lean kernel (axioms propext, Classical.choice, Quot.sound), translator/adapter/oracle in harness/c08.py, the "
-              "sampled correspondence (exhaustive slices/indexes/fixed_len/widths on 7 base texts, 16 k random trees quick / 400 k "
-              "thorough), CPython's str on the oracle side. Not modelled: escape sequences themselves (C09), CHText.make / "
-              "resize_chunks_list (internal, C12), slice steps (rejected by CHText), format specs outside "
-              "[[fill]align][width][s] (zero flag, precision, sign: the model answers `unmodelled` or follows the code, no theorem), "
-              "negative fixed_len (model follows the code, outside the property). The model is value-based; operands that are the "
-              "target itself are covered as `t += t`, `t += [t]` (C08.self_iadd; run under a step budget so that a loop is "
-              "reported, fix 6257f6b) and `u = x.fixed_len(n); u += b` must leave x unchanged (fix ec75272); `t += [t, t]` "
-              "(four copies: the second element is read after the first append) is outside the model and not generated.")
-TECHNIQUE = "Lean 4 refinement proof (chunk list -> list of coloured cells) + canonical-form invariant + correspondence check on operation trees"
+              "sampled correspondence (exhaustive slices/indexes/fixed_len/widths on 7 base texts, 16 k random trees, 3 k histories, "
+              "1.6 k make/resize lines quick; 400 k / 60 k / 32 k thorough), CPython's str on the oracle side, C09's lemma files "
+              "for the string-level theorems. Rest on the tie only: that the real objects follow the store discipline of the "
+              "history model (checked by mutating operands after an operation and re-observing every object) and that the real "
+              "class has no cache (checked by re-rendering after every statement; seed C09-m4 is caught by this check). Not "
+              "modelled: slice steps (rejected by CHText), format specs outside [[fill]align][width][s] (zero flag, precision, sign: "
+              "the model answers `unmodelled` or follows the code, no theorem), negative fixed_len (model follows the code, outside "
+              "the property), `in`, hash, the list object CHText.make keeps. `t += [t, t]`-like operands are in the model (code "
+              "reading) but have no str reading, so the oracle does not judge them.")
+TECHNIQUE = ("Lean 4 refinement proof (chunk list -> list of coloured cells) + canonical-form invariant + store/frame model for "
+             "histories + composition with the SGR model of C09 + correspondence check on operation trees and histories")
